@@ -959,6 +959,30 @@ def seeds_to_cases(seeds):
     return out
 
 
+def fixed_cases():
+    """small written-out is_compatible / predicate cases (also the targets of shrinking)"""
+    out = []
+    V = lambda *rel, **kw: dict({'epoch': 0, 'release': list(rel), 'pre': None, 'post': None, 'dev': None,
+                                 'local': None}, **kw)
+    for r, c in [(V(1, 0), V(1, 0)), (V(1, 0), V(1, 0, 0)), (V(1), V(2)), (V(2), V(1)), (V(1, 0), V(1, 1)),
+                 (V(1, 0, pre=['rc', 1]), V(1, 0)), (V(1, 0), V(1, 0, pre=['rc', 1])), (V(1, 0), V(1, 0, post=1)),
+                 (V(1, 0, dev=1), V(1, 0, pre=['a', 1])), (V(2, 0), V(0, 1, epoch=1))]:
+        for sm in (True, False):
+            out.append({'prop': 'compat', 'fn': 'compat', 'req': render_v(r), 'cur': render_v(c), 'same_major': sm,
+                         'req_struct': r, 'cur_struct': c})
+    for op in OPS:
+        for cand in (V(1, 0), V(1, 5), V(2, 0)):
+            out.append({'prop': 'pred', 'fn': 'pred', 'comps': [[op, V(1, 5)]], 'pred': op + '1.5',
+                         'ver': render_v(cand), 'ver_struct': cand, 'malformed': None})
+    for cand in (V(1, 0), V(1, 5), V(2, 0), V(3)):
+        out.append({'prop': 'pred', 'fn': 'pred', 'comps': [['>=', V(1, 5)], ['!=', V(2, 0)], ['<', V(3)]],
+                     'pred': '>=1.5, !=2.0 ,<3', 'ver': render_v(cand), 'ver_struct': cand, 'malformed': None})
+    for bad in ('', ',', '1.0', '>=', '>= 1.0 2', '=1.0', '~=1.0', '>=1.0,', '>=x'):
+        out.append({'prop': 'pred', 'fn': 'pred', 'comps': [], 'pred': bad, 'ver': '1.0', 'ver_struct': V(1, 0),
+                     'malformed': 'fixed'})
+    return out
+
+
 def shrink(case):
     """smaller case on which the oracle still fails"""
     k = case['prop']
@@ -987,6 +1011,10 @@ def shrink(case):
             else:
                 i += 1
         return {'prop': k, 'a': a, 'b': b}
+    if k in ('compat', 'pred'):
+        for c in fixed_cases():
+            if c['prop'] == k and bool(c.get('malformed')) == bool(case.get('malformed')) and fails(c):
+                return c
     if k == 'pred' and not case.get('malformed') and len(case.get('comps', [])) > 1:
         for i in range(len(case['comps'])):
             op, v = case['comps'][i]
@@ -1007,6 +1035,7 @@ def search(ctx, seeds, full=False):
         todo.append({'prop': 'order', 'a': a, 'b': b})
     for t in ([999], [1, 0], [999, 999, 999, 999, 999], [1, 0, 0, 0, 0], [100, 10, 1], [1, 999, 0, 999]):
         todo.append({'prop': 'roundtrip', 't': t})
+    todo += fixed_cases()
     todo += [gen_search_case(rng) for _ in range(n)]
     for case in todo:
         ctx.evaluations += 1
